@@ -45,6 +45,8 @@ def check(chk):
     r13(chk, m, Token, Tokenizer)
     r14_r15(chk, m, Tokenizer)
     r17(chk, m, Tokenizer)
+    from . import shared
+    shared.category_sequence_rules(chk, m, 'R1.8')
     chk.decline('the concrete token stream of a concrete string (it is the '
                 'transition relation applied character by character)')
     chk.decline(r'substitution of tokens through \let aliases (get_let)')
